@@ -142,9 +142,13 @@ func c10Enumerate(tier string, yield func(any)) {
 			for b := a + 1; b < 7; b++ {
 				for c := b + 1; c < 7; c++ {
 					toggleSets = append(toggleSets, []int{a, b, c})
+					for d := c + 1; d < 7; d++ {
+						toggleSets = append(toggleSets, []int{a, b, c, d})
+					}
 				}
 			}
 		}
+		toggleSets = append(toggleSets, []int{0, 1, 2, 3, 4, 5, 6})
 	}
 	for hier := 0; hier < 4; hier++ {
 		for ti, ts := range toggleSets {
@@ -169,6 +173,11 @@ func c10Enumerate(tier string, yield func(any)) {
 		for a := range c10Answers {
 			yield(&c10Case{Kind: "consent", Hier: hier, Toggles: []int{}, Answer: a})
 			yield(&c10Case{Kind: "consent", Hier: hier, Toggles: []int{0, 6}, Answer: a})
+			if hier > 0 {
+				// the entity to be replaced holds a certificate but no private key (request-based / key stripped)
+				yield(&c10Case{Kind: "consent", Hier: hier, Toggles: []int{5}, Answer: a, Pre: 1})
+				yield(&c10Case{Kind: "consent", Hier: hier, Toggles: []int{}, Answer: a, Pre: 2})
+			}
 		}
 	}
 }
@@ -347,7 +356,7 @@ func c10Exec(x *engine.Ctx, cc any) {
 func c10Consent(x *engine.Ctx, c *c10Case) {
 	c.Clock = 0
 	d, w := c10World(c)
-	x.Nontrivial(fmt.Sprintf("consent %d %v %d", c.Hier, c.Toggles, c.Answer))
+	x.Nontrivial(fmt.Sprintf("consent %d %v %d %d", c.Hier, c.Toggles, c.Answer, c.Pre))
 	// fresh directory: nothing is replaced, so no prompt and no need for an answer
 	res, err := drive.RunCLI(w, drive.Default, "")
 	if err != nil {
@@ -370,7 +379,19 @@ func c10Consent(x *engine.Ctx, c *c10Case) {
 	}
 	// edit the root's subject: root (and everything below) is to be replaced
 	root := d.Certs[0]
-	root.Subject = "CN=Entity 0 renamed, O=C10"
+	switch c.Pre {
+	case 1, 2:
+		// only the last entity is to be replaced; with Pre 2 its key block is stripped first
+		root = d.Certs[len(d.Certs)-1]
+		if c.Pre == 2 {
+			p := ArtifactPath(root.Path)
+			pf := refx509.SplitPem(w.Files[p].Data)
+			nb := []byte("#HASH:" + *pf.HashLine + "\n")
+			nb = append(nb, refx509.EncodePem("CERTIFICATE", pf.CertDER)...)
+			w.Put(p, nb)
+		}
+	}
+	root.Subject = "CN=Entity renamed, O=C10"
 	w.Put(root.Path, RenderCfg(root.Path, root.Tree()))
 	before := w.Clone()
 	ans := c10Answers[c.Answer]
@@ -408,8 +429,8 @@ func init() {
 	register(&engine.Check{
 		ID:          "C10",
 		Level:       "model_checking",
-		Rule:        "4 hierarchies (root; root+sub; 3-tier chain; root+2 subs) x toggle sets of size <=2 (thorough <=3) over {profile, relative validity, absolute validity, manipulations, imported key, CSR-based leaf, nested directories + explicit aliases} x 16 flag sets without generate-all x 2 clock modes (tick per write / one tick per run), 5 foreign files present: run, then run again with the same flags - from the fresh directory and (for the <=1-toggle worlds; all in thorough) after four histories: settled + edit of the root's subject, of the last entity's subject, of its extensions plus touching every config, deletion of its artifact. Second run: empty plan, nothing generated, empty write log, directory identical including mtimes. First run: changed paths = artifact paths of exactly the reported entities, no other path changed or created. The same run;run on the built binary in a native directory for every flag set on the <=1-toggle worlds and a diagonal of the rest; consent: 9 stdin answers on 8 worlds with a pending replacement (only `y` replaces, others leave the directory identical and exit 0, no prompt when nothing is replaced). states = worlds, transitions = runs, traces_validated = binary runs",
-		Bound:       map[string]string{"toggle set size": "quick<=2 thorough<=3"},
+		Rule:        "4 hierarchies (root; root+sub; 3-tier chain; root+2 subs) x toggle sets of size <=2 (thorough <=4 and all seven) over {profile, relative validity, absolute validity, manipulations, imported key, CSR-based leaf, nested directories + explicit aliases} x 16 flag sets without generate-all x 2 clock modes (tick per write / one tick per run), 5 foreign files present: run, then run again with the same flags - from the fresh directory and (for the <=1-toggle worlds; all in thorough) after four histories: settled + edit of the root's subject, of the last entity's subject, of its extensions plus touching every config, deletion of its artifact. Second run: empty plan, nothing generated, empty write log, directory identical including mtimes. First run: changed paths = artifact paths of exactly the reported entities, no other path changed or created. The same run;run on the built binary in a native directory for every flag set on the <=1-toggle worlds and a diagonal of the rest; consent: 9 stdin answers on 14 worlds with a pending replacement (incl. replaced entities that hold a certificate but no private key: request-based, key stripped) (only `y` replaces, others leave the directory identical and exit 0, no prompt when nothing is replaced). states = worlds, transitions = runs, traces_validated = binary runs",
+		Bound:       map[string]string{"toggle set size": "quick<=2 thorough<=4 + all"},
 		Assumptions: []string{"answers `y` without newline and ` y ` are accepted by the code; the statement says `y`, so they are not demanded either way"},
 		Budget:      budgets(quickBudget, thoroughBudget),
 		Enumerate:   c10Enumerate,
